@@ -122,12 +122,17 @@ impl SymbolTable {
     pub fn resolve(&mut self, name: &str, depth: usize) -> Option<Rc<Symbol>> {
         if let Some(symbols) = self.store.get(name) {
             for symbol in symbols.iter().rev() {
-                if symbol.depth <= depth {
+                // A free symbol keeps the depth of the original symbol in the
+                // enclosing function but is visible in the whole function body.
+                if symbol.depth <= depth || symbol.scope == SymbolScope::Free {
                     return Some(Rc::clone(symbol));
                 }
             }
         } else if let Some(outer) = &mut self.outer {
-            if let Some(obj) = outer.resolve(name, depth) {
+            // Every symbol still present in the enclosing function's table is
+            // live at the point where this function is being compiled (see
+            // 'leave_block'), whatever the block depth inside this function is.
+            if let Some(obj) = outer.resolve(name, usize::MAX) {
                 if matches!(
                     obj.scope,
                     SymbolScope::Global | SymbolScope::BuiltinFn | SymbolScope::BuiltinVar
@@ -139,6 +144,19 @@ impl SymbolTable {
             }
         }
         None
+    }
+
+    /// Forget the bindings of a block that has ended: remove the local and
+    /// global symbols defined deeper than 'depth', so that they are neither
+    /// visible after the block (e.g. in a sibling block) nor hide an outer
+    /// binding of the same name. The slots they used remain allocated.
+    pub fn leave_block(&mut self, depth: usize) {
+        self.store.retain(|_, symbols| {
+            symbols.retain(|s| {
+                !(matches!(s.scope, SymbolScope::Local | SymbolScope::Global) && s.depth > depth)
+            });
+            !symbols.is_empty()
+        });
     }
 
     pub fn define_builtin_fn(&mut self, index: usize, name: &str) -> Rc<Symbol> {
